@@ -37,6 +37,8 @@
  *   (O lines, modelled: Cello/Config.lean namespace Keep) keep programs — holders 0..MAXH-1 that are the sole path to managed objects:
  *                     hnew h kind | hput h k id pay | hget h k | hread h | hrem h k | hrel h k | hshrink h n | hreserve h n
  *                     | hchurn m | hdrop h | hdel h        (see "keep programs" below)
+ *                     | hexit                              process exit in a forked child: which Tracked destructors have run when the process
+ *                                                          has ended (the `main` wrapper's atexit(Cello_Exit) exists only #ifndef CELLO_NGC)
  *   (O lines, modelled: Cello/ConfigType.lean) RUN-TIME TYPES — type slots 0..MAXTY-1, object slots 0..MAXOB-1 (see "run-time types" below):
  *                     ty T ROUTE NAME SIZE INST*      new(Type, $S(NAME), $I(SIZE), instances…) by ROUTE = new | raw | root (new_raw / new_root)
  *                                                     | con | conraw | conroot (construct_with(alloc / alloc_raw / alloc_root (Type), …))
@@ -385,6 +387,30 @@ static void k_audit(const char* when) {
     snprintf(a, sizeof a, "serial=%d finalised=%d at=%s", id, (int)led[id].fin, when); snprintf(b, sizeof b, "%s", led[id].expect ? "alive" : "finalised-once");
     XF(what, a, b);
   }
+}
+
+/* `hexit`: the ledger when the process has ENDED.  A function with the destructor attribute runs after every atexit handler, so
+ * after Cello_Exit (registered by the `main` wrapper of Cello.h before Cello_Main is entered) — in the builds that have one.
+ * What every configuration must agree on: finalised by the end of the process <=> deleted by the program.  An object that was
+ * never deleted and is finalised all the same (by a collection, or by the exit-time sweep of GC_Del) is something a build without
+ * collector never does: X sig=cfg-exit-finalise (known finding KF-C18-exit-finalisation; generated workloads call hexit only when
+ * every Tracked object made so far was deleted by the program). */
+static int exit_report = 0;
+static size_t exit_line = 0;
+__attribute__((destructor)) static void exit_ledger_report(void) {
+  if (!exit_report) return;
+  int made = 0, fin = 0, extra = 0, twice = 0; char b[256]; int n;
+  for (int id = 0; id < led_top; id++) if (led[id].made) { made++; if (led[id].fin) fin++; if (led[id].fin > 1) twice++; if (led[id].fin && !led[id].deleted) extra++; }
+  if (extra) {
+    n = snprintf(b, sizeof b, "X sig=cfg-exit-finalise line=%zu what=%d Tracked object(s) the program never deleted were finalised by the collector or by the exit-time sweep (build %s-%s); a CELLO_NGC build never finalises them\n", exit_line, extra, VCFG, VOPT);
+    if (write(1, b, (size_t)n) < 0) { }
+  }
+  if (twice) {
+    n = snprintf(b, sizeof b, "X sig=c18-%s-%s line=%zu what=exit: %d object(s) finalised twice\n", VCFG, VOPT, exit_line, twice);
+    if (write(1, b, (size_t)n) < 0) { }
+  }
+  n = snprintf(b, sizeof b, "O hexit made=%d finalised=%d\n", made, fin);
+  if (write(1, b, (size_t)n) < 0) { }
 }
 
 /* the object behind position `pos` / key `k` of holder h, through the public API */
@@ -1573,6 +1599,24 @@ static void run_op(int nt, char** t) {
     fprintf(vout, "T ring %lld churn %lld\n", r, c); return;
   }
   /* ---------------- keep programs: containers as the sole path to collector-managed objects (O lines: the model has them) */
+  if (!strcmp(op, "hexit")) {
+    if (nt != 1) BAD();
+    n_exec++; n_keep++;
+    k_scrub(); k_audit("hexit");
+    fflush(vout); fflush(stderr);
+    pid_t pid = fork();
+    if (pid == 0) {
+      alarm(30);
+      exit_report = 1; exit_line = cur_line;
+      exit(0);                     /* atexit handlers (Cello_Exit when the build has the collector), then the report above */
+    }
+    int status = 0;
+    if (pid < 0 || waitpid(pid, &status, 0) < 0 || !WIFEXITED(status) || WEXITSTATUS(status) != 0) {
+      snprintf(e1, sizeof e1, "child status %d", status); XF("exit-crashed", e1, "clean exit");
+      O("hexit crashed");
+    }
+    return;
+  }
   if (op[0] == 'h' && (!strcmp(op, "hnew") || !strcmp(op, "hput") || !strcmp(op, "hget") || !strcmp(op, "hread") || !strcmp(op, "hrem")
       || !strcmp(op, "hrel") || !strcmp(op, "hshrink") || !strcmp(op, "hreserve") || !strcmp(op, "hchurn") || !strcmp(op, "hdrop") || !strcmp(op, "hdel") || !strcmp(op, "hrun"))) {
     int h = 0; long long k = 0, id = 0, pay = 0; KH* s = NULL;
